@@ -509,4 +509,58 @@ def r15_10(ctx):
                f"{f.name} does not depend on {sorted(moved - fields)}: after next() it still shows the consumed positions (as null) where Vec's IntoIter shows only what is left")
 
 
-RULES = [("R15.1", r15_a), ("R15.2", r15_2), ("R15.3", r15_3), ("R15.4", r15_4), ("R15.5", r15_5), ("R15.6", r15_6), ("R15.7", r15_7), ("R15.8", r15_8), ("R15.9", r15_9), ("R15.10", r15_10)]
+def r15_11(ctx):
+    """copy-on-write promotion is only asked of containers: Value::as_mut converts a parsed array/object and calls itself
+    again; on a parsed string or number the conversion does nothing and the recursion never ends.  So every call into the
+    promoting helpers of Value (those that call as_mut) has a receiver whose kind is established: the inner value of an
+    Array/Object facade, or a value on the true edge of a dominating is_array()/is_object() test"""
+    prog = ctx.prog()
+    am = prog.find("value::node::Value::as_mut")
+    promoting = {am.id}
+    for f, b, t in prog.callers_of(lambda t: t.get("callee") == am.id):
+        if (f.self_adt or "").endswith("node::Value"):
+            promoting.add(f.id)
+    n = 0
+    seen = collections.Counter()
+    for f in prog.fns.values():
+        if f.crate != "sonic_rs" or f.id in promoting:
+            continue
+        # the accessors that answer None for a value of the wrong kind: Index::index_into_mut of every index type.  (Other
+        # callers hold values whose kind is fixed by construction - facades, the in-memory serializer's builders - and are
+        # covered by R15.5.)
+        if f.name != "index_into_mut" or "index::" not in f.id:
+            continue
+        for b, t in f.calls():
+            if t.get("callee") not in promoting or not t["args"]:
+                continue
+            n += 1
+            a = op_local(t["args"][0])
+            src = f.src(a) if a is not None else ("multi",)
+            why = None
+            if src[0] == "place" and _inner_place(f, src[1]):
+                why = "the inner value of a facade"
+            else:
+                root = None
+                sl, leaves = backward_slice(f, [a]) if a is not None else (set(), [])
+                if any(lf[0] == "place" and _inner_place(f, lf[1]) for lf in leaves):
+                    why = "the inner value of a facade"
+                else:
+                    for cb, ct in f.calls():
+                        if not callee_is(ct, "is_object", "is_array") or not f.dominates(cb, b):
+                            continue
+                        ca = op_local(ct["args"][0])
+                        csl, cleaves = backward_slice(f, [ca]) if ca is not None else (set(), [])
+                        roots_a = {lf[1] for lf in leaves if lf[0] == "param"} | {x for x in sl if f.locals[x].get("name")}
+                        roots_c = {lf[1] for lf in cleaves if lf[0] == "param"} | {x for x in csl if f.locals[x].get("name")}
+                        e = bool_switch_edges(f, ct["dest"][0])
+                        if (roots_a & roots_c) and e and e[0] != e[1] and (b == e[0] or f.dominates(e[0], b)) and b not in f.reachable_from(e[1], avoid={e[0]}):
+                            why = f"on the true edge of {ct['callee'].rsplit('::', 1)[-1]}()"
+            owner = prog.fns.get(f.parent_fn, f) if f.parent_fn else f
+            seen[short(owner.id)] += 1
+            ctx.ob("R15.11", f"promotion-on-containers:{short(owner.id)}#{seen[short(owner.id)]}", why is not None, f.loc(t["ln"]),
+                   f"{t['callee'].rsplit('::', 1)[-1]} is applied to {why}" if why else
+                   f"{t['callee'].rsplit('::', 1)[-1]} (which promotes through as_mut) can be applied to a value whose kind was not tested: on a parsed string or number as_mut calls itself for ever (stack overflow) where the model returns None")
+    ctx.floor("R15.11", "calls into the promoting helpers of Value from index_into_mut", n, 3)
+
+
+RULES = [("R15.1", r15_a), ("R15.2", r15_2), ("R15.3", r15_3), ("R15.4", r15_4), ("R15.5", r15_5), ("R15.6", r15_6), ("R15.7", r15_7), ("R15.8", r15_8), ("R15.9", r15_9), ("R15.10", r15_10), ("R15.11", r15_11)]
